@@ -175,6 +175,56 @@ def graphs(run, rng, n):
     run.sample({"graph_case": desc})
 
 
+def user_aggregation_reuse(run, rng, n):
+    """a user-supplied Aggregation object reused for a second, different call: the graph built by the FIRST call must still
+    compute what it computed before (tasks are self-contained: they do not read state shared with the user's object / later calls)"""
+    import dask.array as da
+    import numpy as np
+
+    import flox
+    from flox import xrdtypes
+    from flox.aggregations import Aggregation
+
+    for _ in range(n):
+        m = rng.randint(4, 10)
+        vals = np.array([I.unf(v) for v in G.rand_vals(rng, m, alphabet=G.ALPHA_FINITE + ["nan"], p_special=0.3)], dtype=float)
+        labels = np.array([rng.randrange(3) for _ in range(m)])
+        chunks = tuple(G.random_composition(rng, m, 3))
+        which = rng.choice(["max", "mean"])
+        if which == "max":
+            agg = Aggregation("usermax", chunk="nanmax", combine="nanmax", numpy="nanmax", fill_value=xrdtypes.NINF, final_fill_value=xrdtypes.NA,
+                              preserves_dtype=True)
+        else:
+            agg = Aggregation("usermean", chunk=("nansum", "nanlen"), combine=("sum", "sum"), finalize=_user_mean, fill_value=(0, 0),
+                              dtypes=(None, np.intp), final_dtype=np.floating)
+        method = rng.choice(["map-reduce", "cohorts", "blockwise"])
+        desc = {"kind": "custom-agg-reused", "agg": which, "vals": [I.fnum(x) for x in vals], "labels": labels.tolist(), "chunks": list(chunks), "method": method}
+        try:
+            with warnings.catch_warnings():
+                warnings.simplefilter("ignore")
+                arr = da.from_array(vals, chunks=(chunks if method != "blockwise" else (m,),))
+                r1, _ = flox.groupby_reduce(arr, labels, func=agg, expected_groups=np.arange(4), fill_value=-1.0, min_count=2, method=method)
+                first = np.asarray(r1.compute(scheduler="sync"))
+                # the same Aggregation object, another request (other fill, min_count, dtype of the data)
+                other = da.from_array((np.nan_to_num(vals) * 100).astype(rng.choice(["int8", "int16", "float32"])), chunks=(chunks if method != "blockwise" else (m,),))
+                r2, _ = flox.groupby_reduce(other, labels, func=agg, expected_groups=np.arange(4), fill_value=-9, min_count=1, method=method)
+                r2.compute(scheduler="sync")
+                again = np.asarray(r1.compute(scheduler="sync"))
+        except (ValueError, NotImplementedError, TypeError, OverflowError):
+            run.extra["refused_cases"] = run.extra.get("refused_cases", 0) + 1
+            continue
+        run.count(json.dumps(desc, sort_keys=True), len(chunks) > 1)
+        if not np.array_equal(first, again, equal_nan=True) or first.dtype != again.dtype:
+            run.violation({"property": "C13", "kind": "re-executing a graph after the user's Aggregation object was reused gives another result "
+                                                    "(tasks read state shared with a later call)", "graph": desc,
+                           "first": [I.fnum(x) for x in np.asarray(first, dtype=float)], "again": [I.fnum(x) for x in np.asarray(again, dtype=float)]}, tag="agg")
+    run.sample({"user_aggregation_case": desc})
+
+
+def _user_mean(total, count):
+    return total / count
+
+
 def threaded_shared(run, rng, n):
     """tasks sharing an input run concurrently (threaded scheduler): same values as the synchronous run"""
     import dask
@@ -217,6 +267,7 @@ def run(run: C.Run):
         run.extra["functions_that_may_store_into_their_parameters"] = offending_functions()
     graphs(run, rng, 2500 if thorough else 260)
     threaded_shared(run, rng, 60 if thorough else 8)
+    user_aggregation_reuse(run, rng, 400 if thorough else 60)
     if any(not o[1] for o in run.obligations) and not run.violations:
         run.violation({"property": "C13", "kind": "proof obligation no longer checks: a function reachable from a task callable may now write into one of its parameters",
                        "failed": P.failed_obligations(run), "offending": run.extra.get("functions_that_may_store_into_their_parameters")},
